@@ -36,7 +36,9 @@ META = {
         'attributes so that a stray write is seen with probability (n-1)/n per pixel. The statement does not say what a FAILED VIEW '
         'leaves as viewport: for it the union of the old viewport and the requested rectangle (+border) is allowed and the viewport '
         'is then reset by the harness. A drawing routine that draws too LITTLE (e.g. an exclusive upper bound) is not a C30 refutation '
-        '(C31 sees it). PAINT statements ended by the harness step budget are discarded (counted in paint_budget_breaks).'),
+        '(C31 sees it). PAINT statements ended by the harness step budget are discarded (counted in paint_budget_breaks). A statement that '
+        'uses more than 20 CPU-seconds (process CPU time, not wall time) is reported as hang:statement-exceeded-cpu-budget:<KIND> and the '
+        'session is replaced: the frame condition cannot be evaluated for it.'),
     'rule': ('case = (mode, active/visible page, viewport, window, statement text); distinct by that tuple; every case is '
              'non-trivial (a statement that changes nothing because it is clipped away is exactly the interesting case); '
              'behavioural counters record how many changed pixels, were clipped, raised errors'),
@@ -48,6 +50,8 @@ META = {
     'timeout': {'quick': 900, 'thorough': 3600},
 }
 
+HANG_CPU_SECONDS = 20          # a statement normally needs < 3 CPU-seconds even at radius 2500 / full-screen PAINT
+HANG_PROBE_MODES = ('cga:2', 'tandy:3', 'hercules:3')
 KINDS = ['PSET', 'PRESET', 'LINE', 'LINE-B', 'LINE-BF', 'CIRCLE', 'PAINT', 'PAINT-TILE', 'DRAW', 'PUT', 'VIEW']
 FAR = [1000, 5000, 20000, 32767, 32768, 33000, 40000]
 
@@ -466,8 +470,17 @@ class Monitor(object):
         before = self.snapshot if self.snapshot is not None else g.snap()
         old_rect = st.rect
         try:
-            code = g.trap(stmt)
-        except harness.Internal as e:
+            with gfx.cpu_guard(HANG_CPU_SECONDS):
+                code = g.trap(stmt)
+        except (harness.Internal, gfx.StatementHang) as e:
+            if gfx.is_hang(e):
+                res.violation('hang:statement-exceeded-cpu-budget:' + kind,
+                              '%s: %s did not finish within %d CPU-seconds (view=%r window=%r)' % (
+                                  g.mode['label'], stmt.decode('latin-1'), HANG_CPU_SECONDS, st.view, st.window), case)
+                res.count('statement_hangs')
+                err = harness.Internal(e, 'hang', '') if not isinstance(e, harness.Internal) else e
+                err.reported = True
+                raise err
             res.violation(e.key, '%s in %s: %s' % (stmt.decode('latin-1'), g.mode['label'], e), case)
             res.count('internal_errors')
             e.reported = True
@@ -811,12 +824,23 @@ def probes(res, label):
       * active page switched by SCREEN while a VIEW is in force, then drawing on the new page
     """
     m = gfx.MODE_BY_LABEL[label]
-    for name in ('draw-colour-300', 'page-switch-under-view'):
+    for name in ('draw-colour-300', 'page-switch-under-view', 'circle-pie-radius-1', 'paint-tile-zero-rows'):
+        if name == 'paint-tile-zero-rows' and label not in HANG_PROBE_MODES:
+            continue
         try:
             with gfx.GBox(m, wait_budget=2500) as g:
                 mon = Monitor(g, res, {})
+                c = g.nattr - 1
                 if name == 'draw-colour-300':
                     mon.check('DRAW', b'DRAW "C300 R5"', False)
+                elif name == 'circle-pie-radius-1':
+                    # pie-slice line whose end point the arc loop never reaches
+                    for s in (b'CIRCLE(60,60),1,%d,-0.6,,1' % c, b'CIRCLE(60,60),1,%d,,-0.6,1' % c, b'CIRCLE(60,60),7,%d,-0.7,-2.4,1' % c):
+                        mon.check('CIRCLE', s, False)
+                elif name == 'paint-tile-zero-rows':
+                    # tile with three all-zero rows in a box with an obstacle
+                    g.direct(b'LINE(50,50)-(70,60),%d,B:PSET(60,54),%d' % (c, c))
+                    mon.check('PAINT-TILE', b'PAINT(52,52),CHR$(255)+CHR$(0)+CHR$(0)+CHR$(0),%d' % c, False)
                 elif g.npages > 1:
                     mon.check('VIEW', b'VIEW(10,10)-(%d,%d),1,%d' % (g.w // 2, g.h // 2, g.nattr - 1), False)
                     case = {'mode': label, 'stmts': ['VIEW(10,10)-(%d,%d)' % (g.w // 2, g.h // 2), 'SCREEN %d,,1,0' % m['screen']]}
